@@ -15,6 +15,10 @@ def templates():
     import random as _r
     # texts a format string / display layer could change, printed before and after the first read (a third of them per run)
     out += [c for k, c in enumerate(G.output_text_cases(_r.Random(7))) if k % 3 == 0]
+    # edge sizes for the `build` command itself: nothing to compile, nothing left after pre-execution
+    out.append(("empty-file", "\n", ""))
+    out.append(("no-command", "주석만 있는 파일 abc\n", ""))
+    out.append(("all-preexecuted", "형.. 형... 하앙... 항.", ""))
     out.append(("prefix-leaves-fraction", "형.. 형... 흡.... 흑.... 항..... 흑 항. 흑.... 항.", "x"))
     out.append(("prefix-leaves-negative-nan", "형..... 흣.... 흡..... 흑 항. 흑.... 항. 흑..... 항.", "y"))
     out.append(("last-preexec-has-area", "혀어어어엉.............♥ 흑❤ 항.", ""))
@@ -101,6 +105,41 @@ def run(prop, tier, seed):
     specs = [E.spec_fields(x) for x in C.run_model([E.case_line("spec", "run", 20000, p, s) for _, p, s in cases])]
     jobs = [(k, lv) for k in range(len(cases)) for lv in (0, 1, 2)]
     srcs = C.run_impl(["compile %d %s" % (lv, G.cps(cases[k][1])) for k, lv in jobs])
+    # the same through the tool: `hyeong build --build-path <scratch> -O<level> FILE` writes hyeong-build/src/main.rs before it
+    # calls cargo (which cannot resolve the git dependency offline: status 1 is expected, a panic is not); the file it writes
+    # must be the source the library path emits — this ties app/build.rs (what is optimised and handed to build_source) in
+    C.build_repo_bin()
+    tool_cases = sorted(set(list(range(0, len(cases), max(1, len(cases) // (40 if quick else 300)))) +
+                            [k for k, c in enumerate(cases) if c[0] in ("empty-file", "no-command", "all-preexecuted")]))
+    tjobs = [(k, lv) for k in tool_cases for lv in (0, 1, 2)]
+
+    def via_tool(j):
+        k, lv = j
+        bp = os.path.join(d, "bp%d_%d" % (k, lv))
+        # an installed build directory (otherwise `build` first runs the installer, which needs the network)
+        os.makedirs(os.path.join(bp, "hyeong-build", "src"), exist_ok=True)
+        with open(os.path.join(bp, "hyeong-build", "Cargo.toml"), "w") as fh:
+            fh.write('[package]\nname = "hyeong-build"\nversion = "0.1.0"\nedition = "2018"\n\n[dependencies]\nhyeong = { git = "https://github.com/buttercrab/hyeo-ung-lang" }\n')
+        f = os.path.join(bp, "p.hyeong")
+        with open(f, "w", encoding="utf-8") as fh:
+            fh.write(cases[k][1])
+        cls, o, e = C.run_hyeong(["build", "--build-path", bp, "-O%d" % lv, "-o", os.path.join(bp, "out.bin"), f], b"", timeout=120)
+        mp = os.path.join(bp, "hyeong-build", "src", "main.rs")
+        text = open(mp, encoding="utf-8").read() if os.path.exists(mp) else None
+        import shutil
+        shutil.rmtree(bp, ignore_errors=True)
+        return cls, e.decode("utf-8", "replace"), text
+    tool = C.pmap(via_tool, tjobs)
+    tool_fail, tool_diff = [], []
+    for (k, lv), (cls, e, text) in zip(tjobs, tool):
+        hist["build-command"] += 1
+        lib = srcs[jobs.index((k, lv))]
+        if cls not in ("exit0", "exit1") or "panicked" in e:
+            tool_fail.append((k, lv, cls, e))
+        elif lib.startswith("src:") and text is not None and text != bytes.fromhex(lib[4:]).decode("utf-8"):
+            tool_diff.append((k, lv))
+        elif lib.startswith("src:") and text is None and "[error]" in e and "cargo build" not in e:
+            hist["build-command-diagnosed"] += 1
 
     def build_and_run(i):
         k, lv = jobs[i]
@@ -212,6 +251,19 @@ def run(prop, tier, seed):
                     % (why, lv, cases[k][1] if k >= 0 else "", a[:300], b[:300]),
                     dict(correspondence="L0 compile::build_source vs L1 coq/Model/Compile.v", program=cases[k][1] if k >= 0 else why, level=lv, why=why,
                          implementation=a, model=b, disagreements=len(corr)), found_input=False)
+    seen_tool = set()
+    for k, lv, cls, e in tool_fail:
+        if lv in seen_tool:
+            continue
+        seen_tool.add(lv)
+        V.violation("compiled:level%d:build-command-crash" % lv,
+                    "`hyeong build -O%d` on %r ends with %s before/without a diagnostic: %s" % (lv, cases[k][1][:200], cls, e[-300:]),
+                    dict(program=cases[k][1], level=lv, status=cls, stderr=e[-2000:]))
+    if tool_diff and not tool_fail:
+        k, lv = tool_diff[0]
+        V.violation("correspondence:build-command", "`hyeong build -O%d` writes a different main.rs for %r than optimize + build_source called directly" % (lv, cases[k][1][:200]),
+                    dict(correspondence="app/build.rs (the command) vs the library path optimize::optimize + compile::build_source used by the check and modelled by Compile.compile_prog",
+                         program=cases[k][1], level=lv, disagreements=len(tool_diff)), found_input=False)
     if not pc["ok"]:
         V.violation("proof:" + prop, "proof obligations of %s do not check: %s" % (prop, "; ".join(pc["problems"])),
                     dict(theorem_file="coq/Props/%s.v" % prop, problems=pc["problems"]), found_input=False)
